@@ -1,2 +1,58 @@
-(** Theorems for C12: filled in below as the proofs land. *)
-From JL Require Import Base.Json.
+(** * C12: missing / missing_some report exactly the keys that var cannot find.
+    Statements only; proofs are in Proofs/Data.v and Proofs/DataFacts.v. *)
+From Coq Require Import List ZArith NArith.
+From JL Require Import Base.Json Base.Str Base.Monad Model.Ops Spec.Specs Spec.OpSpecs Proofs.Data Proofs.DataFacts.
+Import ListNotations.
+
+Theorem C12_missing_is_spec : forall d args, op_missing d args = missing_spec d args.
+Proof. exact op_missing_spec. Qed.
+Print Assumptions C12_missing_is_spec.
+
+Theorem C12_missing_some_is_spec :
+  forall d a b,
+    op_missing_some d [a; b] =
+    match a, b with
+    | Num n, Arr keys => match as_u64 n with
+                         | Some need => missing_some_spec d need keys
+                         | None => Err InvalidArgument
+                         end
+    | _, _ => Err InvalidArgument
+    end.
+Proof. exact op_missing_some_spec. Qed.
+Print Assumptions C12_missing_some_is_spec.
+
+(** the lookup is the one var uses: a key is reported missing exactly when var finds nothing for it *)
+Theorem C12_agrees_with_var :
+  forall d k, lookup_spec d k = Ok None <-> (forall s, var_spec d [k; s] = Ok s).
+Proof. exact missing_iff_var_default. Qed.
+Print Assumptions C12_agrees_with_var.
+
+(** exactly the requested non-null keys whose lookup finds nothing *)
+Theorem C12_missing_exact :
+  forall d keys m k, missing_keys d keys = Ok m ->
+    (In k m <-> In k keys /\ is_null k = false /\ lookup_spec d k = Ok None).
+Proof. exact missing_keys_in. Qed.
+Print Assumptions C12_missing_exact.
+
+Theorem C12_present_not_missing :
+  forall d keys m k v, missing_keys d keys = Ok m -> lookup_spec d k = Ok (Some v) -> ~ In k m.
+Proof. exact present_not_missing. Qed.
+Print Assumptions C12_present_not_missing.
+
+(** an absent key is never counted as present, however many times it is listed *)
+Theorem C12_absent_never_counted :
+  forall d k r, lookup_spec d k = Ok None -> count_present d (k :: r) = count_present d r.
+Proof. exact absent_never_counted. Qed.
+Print Assumptions C12_absent_never_counted.
+
+Theorem C12_threshold :
+  forall d need keys m, missing_keys d keys = Ok m ->
+    missing_some_spec d need keys =
+    if (need <=? N.of_nat (count_present d keys))%N then Ok (Arr []) else Ok (Arr (dedup m [])).
+Proof. exact missing_some_threshold. Qed.
+Print Assumptions C12_threshold.
+
+Example C12_nonvacuous :
+  missing_some_spec (Obj []) 1 [Str [97]%N; Str [97]%N] = Ok (Arr [Str [97]%N]) /\
+  missing_spec (Obj [([97]%N, Null)]) [Str [97]%N; Null; Str [98]%N] = Ok (Arr [Str [98]%N]).
+Proof. vm_compute. split; reflexivity. Qed.
